@@ -81,7 +81,7 @@ impl Sess {
 type Tx = Vec<Vec<String>>;
 
 /// top-level protocol lines usable as a thread's unit of work (see `S2::run_call`)
-const CALL_OPS: &[&str] = &["setb", "setbs"];
+const CALL_OPS: &[&str] = &["setb", "setbs", "flink", "funlink", "fsew", "funsew"];
 
 #[derive(Default)]
 struct Scenario {
